@@ -845,6 +845,43 @@ func TestVerifC19(t *testing.T) {
 				}
 			}
 		}
+		// Listings while contracts are being added: count and page of one answer describe one
+		// state of the store — with a limit above the number of contracts the page holds exactly
+		// `count` contracts, whatever is committed in between.  (Monitor only: the additions are
+		// not part of the recorded case, which has ended its queries.)
+		if id%8 == 2 || id < directed {
+			stop := make(chan struct{})
+			done := make(chan struct{})
+			go func() {
+				defer close(done)
+				for i := 0; i < 40; i++ {
+					select {
+					case <-stop:
+						return
+					default:
+					}
+					num := 5000 + i
+					if i%2 == 0 {
+						db.AddV2Contract(mkV2(num, 0, 3, 40), rhp4.TransactionSet{})
+					} else {
+						db.AddContract(mkV1(num, 0, 40, 1), []types.Transaction{{}}, types.Siacoins(1), contracts.Usage{}, 3)
+					}
+				}
+			}()
+			for q := 0; q < 60; q++ {
+				c2, n2, err2 := db.V2Contracts(contracts.V2ContractFilter{Limit: 100})
+				c1, n1, err1 := db.Contracts(contracts.ContractFilter{Limit: 100})
+				if err2 == nil && n2 <= 100 && len(c2) != n2 {
+					em.Monitor("count-and-page-from-different-states", fmt.Sprintf("v2: count %d, page of %d (limit 100) while contracts are being added", n2, len(c2)))
+				}
+				if err1 == nil && n1 <= 100 && len(c1) != n1 {
+					em.Monitor("count-and-page-from-different-states", fmt.Sprintf("v1: count %d, page of %d (limit 100) while contracts are being added", n1, len(c1)))
+				}
+			}
+			close(stop)
+			<-done
+			em.Count("concurrent-listing-phase")
+		}
 		em.EndCase(nontrivial)
 		srv.Close()
 		raw.Close()
